@@ -30,7 +30,9 @@ func (e *eng) forkVectors() {
 	agg := func() altair.SyncAggregate {
 		return altair.SyncAggregate{SyncCommitteeBits: altair.SyncCommitteeBits(make([]byte, 64))}
 	}
-	bh := func(s uint64) common.BeaconBlockHeader { return common.BeaconBlockHeader{Slot: common.Slot(s), ProposerIndex: 7} }
+	bh := func(s uint64) common.BeaconBlockHeader {
+		return common.BeaconBlockHeader{Slot: common.Slot(s), ProposerIndex: 7}
+	}
 	type fv struct {
 		name   string
 		digest common.ForkDigest
